@@ -34,8 +34,12 @@ def build_guard(race=False, timeout=900):
     if race:
         args.append("-race")
     args.append("./cmd/vh-race")
-    p = subprocess.run(args, cwd=harness.HARNESS, env=harness.goenv(), stdout=subprocess.PIPE,
-                       stderr=subprocess.STDOUT, text=True, timeout=timeout)
+    for attempt in range(3):
+        p = subprocess.run(args, cwd=harness.HARNESS, env=harness.goenv(), stdout=subprocess.PIPE,
+                           stderr=subprocess.STDOUT, text=True, timeout=timeout)
+        # a build cache entry removed under a running build (cache trimming on a shared machine): build again
+        if p.returncode == 0 or not ("go-build" in p.stdout and "no such file or directory" in p.stdout):
+            break
     if p.returncode == 0:
         return out, ""
     if "VerifGuardHook" in p.stdout:
